@@ -15,6 +15,15 @@ verus! {
 #[verifier::external_body]
 pub struct ExIoError(std::io::Error);
 
+// io::ErrorKind: an opaque enumeration; `Error::kind` is an uninterpreted function of the error; `==` on kinds is equality
+#[verifier::external_type_specification]
+pub struct ExIoErrorKind(std::io::ErrorKind);
+pub uninterp spec fn io_error_kind(e: &std::io::Error) -> std::io::ErrorKind;
+pub assume_specification[ std::io::Error::kind ](e: &std::io::Error) -> (k: std::io::ErrorKind)
+    ensures k == io_error_kind(e);
+pub assume_specification[ <std::io::ErrorKind as core::cmp::PartialEq>::eq ](a: &std::io::ErrorKind, b: &std::io::ErrorKind) -> (r: bool)
+    ensures r == (*a == *b);
+
 #[verifier::external_type_specification]
 #[verifier::external_body]
 pub struct ExPathBuf(std::path::PathBuf);
